@@ -79,6 +79,9 @@ func (r Set[V]) SubsetOf(other Set[V]) bool {
 }
 
 func (r Set[V]) Diff(other Set[V]) Set[V] {
+	if r.set == nil {
+		return r
+	}
 	ret := r.getEmpty()
 
 	itr := r.Iterator()
@@ -92,6 +95,9 @@ func (r Set[V]) Diff(other Set[V]) Set[V] {
 	return MakeSet(r.getEmpty, ret)
 }
 func (r Set[V]) Intersect(other Set[V]) Set[V] {
+	if r.set == nil {
+		return r
+	}
 	ret := r.getEmpty()
 
 	itr := r.Iterator()
